@@ -128,6 +128,11 @@ func discharge(sc *Script, o *Obligation, tier string) {
 		}
 		return
 	}
+	if o.KnownFinding {
+		// listed known finding: expected not to discharge, do not spend the long race on it
+		o.Verdict, o.Solver, o.Output = v, solvers[0].name, out
+		return
+	}
 	// race all three with the long timeout
 	type res struct {
 		v, out string
